@@ -8,6 +8,7 @@ import copy
 import re
 
 from .index import u
+from ..report import Inconclusive as Inconclusive_
 
 
 def fmt_parts(e, names=None):
@@ -1125,23 +1126,45 @@ def eliminate_temporaries(fn):
 
 
 def normal_form(ix, f, keep):
-    """the analysis normal form of one function (DESIGN 15.3)"""
+    """the analysis normal form of one function (DESIGN 15.3).  A pass that meets a tree shape it does not handle is skipped for this
+    function (the rules then see the less normalised code and stay inconclusive where they need more) - normalisation never fails a check."""
     consts, single = ix.const_env(f.mod)
     fn = copy.deepcopy(f.node)
+    passes = [
+        lambda t: desugar_match(t),
+        lambda t: fold_constants(t, consts, single),
+        lambda t: unroll_const_loops(t, consts, single),
+        lambda t: materialise_generators(ix, f, t, keep),
+        lambda t: inline_function(ix, f, keep=keep, fn=t),
+        lambda t: desugar_match(t),
+        lambda t: inline_expressions(ix, f, t, keep=keep),
+        lambda t: fold_constants(t, consts, single),
+        lambda t: split_unpacking(t),
+        lambda t: propagate_aliases(t),
+        lambda t: propagate_templates(t),
+        lambda t: eliminate_temporaries(t),
+    ]
     prev = None
-    for _ in range(3):
-        fn = desugar_match(fn)
-        fn = fold_constants(fn, consts, single)
-        fn = unroll_const_loops(fn, consts, single)
-        fn = materialise_generators(ix, f, fn, keep)
-        fn = inline_function(ix, f, keep=keep, fn=fn)
-        fn = desugar_match(fn)
-        fn = inline_expressions(ix, f, fn, keep=keep)
-        fn = fold_constants(fn, consts, single)
-        fn = split_unpacking(fn)
-        fn = propagate_aliases(fn)
-        fn = propagate_templates(fn)
-        fn = eliminate_temporaries(fn)
+    disabled = set()
+    rounds = 0
+    while rounds < 3:
+        backup = copy.deepcopy(fn)
+        failed = None
+        for i, p_ in enumerate(passes):
+            if i in disabled:
+                continue
+            try:
+                fn = p_(fn)
+            except (Inconclusive_, RecursionError):
+                raise
+            except Exception:
+                failed = i
+                break
+        if failed is not None:
+            disabled.add(failed)            # redo this round without the pass that could not handle the tree
+            fn = backup
+            continue
+        rounds += 1
         cur = ast.dump(fn)
         if cur == prev:
             break
